@@ -408,3 +408,165 @@ func nameReach(fn *ssa.Function, name string) []*ssa.BasicBlock {
 	}
 	return condReach(fn, decide)
 }
+
+// rowReachEdges: the blocks and edges a decoder / printer function can take for one row of the
+// decode tables: comparisons of integer expressions over the opcode (constants folded through
+// &, |, ^, <<, >>, +, -) and tests of Inst.InstName are decided, every other branch is explored
+// both ways.
+func rowReachEdges(fn *ssa.Function, opcode int64, name string) ([]*ssa.BasicBlock, map[[2]*ssa.BasicBlock]bool) {
+	isOpc := isLoadOfField("Opcode")
+	isName := isLoadOfField("InstName")
+	var eval func(v ssa.Value, d int) (int64, bool)
+	eval = func(v ssa.Value, d int) (int64, bool) {
+		if d > 8 {
+			return 0, false
+		}
+		switch x := v.(type) {
+		case *ssa.Convert:
+			return eval(x.X, d+1)
+		case *ssa.ChangeType:
+			return eval(x.X, d+1)
+		case *ssa.Const:
+			if x.Value != nil && x.Value.Kind() == constant.Int {
+				return constant.Int64Val(x.Value)
+			}
+			return 0, false
+		case *ssa.BinOp:
+			a, ok1 := eval(x.X, d+1)
+			b, ok2 := eval(x.Y, d+1)
+			if !ok1 || !ok2 {
+				return 0, false
+			}
+			switch x.Op {
+			case token.AND:
+				return a & b, true
+			case token.OR:
+				return a | b, true
+			case token.XOR:
+				return a ^ b, true
+			case token.SHL:
+				return a << uint(b&63), true
+			case token.SHR:
+				return a >> uint(b&63), true
+			case token.ADD:
+				return a + b, true
+			case token.SUB:
+				return a - b, true
+			case token.REM:
+				if b != 0 {
+					return a % b, true
+				}
+			}
+			return 0, false
+		}
+		if isOpc(v) {
+			return opcode, true
+		}
+		return 0, false
+	}
+	constStr := func(v ssa.Value) (string, bool) {
+		c, ok := v.(*ssa.Const)
+		if !ok || c.Value == nil || c.Value.Kind() != constant.String {
+			return "", false
+		}
+		return constant.StringVal(c.Value), true
+	}
+	usesOpcode := func(v ssa.Value) bool {
+		found := false
+		var walk func(v ssa.Value, d int)
+		walk = func(v ssa.Value, d int) {
+			if d > 8 || found {
+				return
+			}
+			if isOpc(v) {
+				found = true
+				return
+			}
+			switch x := v.(type) {
+			case *ssa.Convert:
+				walk(x.X, d+1)
+			case *ssa.BinOp:
+				walk(x.X, d+1)
+				walk(x.Y, d+1)
+			}
+		}
+		walk(v, 0)
+		return found
+	}
+	decide := func(v ssa.Value) (bool, bool) {
+		neg := false
+		for {
+			if u, ok := v.(*ssa.UnOp); ok && u.Op == token.NOT {
+				v, neg = u.X, !neg
+				continue
+			}
+			break
+		}
+		switch x := v.(type) {
+		case *ssa.BinOp:
+			if isName(x.X) || isName(x.Y) {
+				if x.Op != token.EQL && x.Op != token.NEQ {
+					return false, false
+				}
+				other := x.Y
+				if isName(x.Y) {
+					other = x.X
+				}
+				k, ok := constStr(other)
+				if !ok {
+					return false, false
+				}
+				return ((k == name) == (x.Op == token.EQL)) != neg, true
+			}
+			if !usesOpcode(x.X) && !usesOpcode(x.Y) {
+				return false, false
+			}
+			a, ok1 := eval(x.X, 0)
+			b, ok2 := eval(x.Y, 0)
+			if !ok1 || !ok2 {
+				return false, false
+			}
+			var r bool
+			switch x.Op {
+			case token.EQL:
+				r = a == b
+			case token.NEQ:
+				r = a != b
+			case token.LSS:
+				r = a < b
+			case token.LEQ:
+				r = a <= b
+			case token.GTR:
+				r = a > b
+			case token.GEQ:
+				r = a >= b
+			default:
+				return false, false
+			}
+			return r != neg, true
+		case *ssa.Call:
+			cal := x.Call.StaticCallee()
+			if cal == nil || cal.Pkg == nil || cal.Pkg.Pkg.Path() != "strings" || len(x.Call.Args) != 2 || !isName(x.Call.Args[0]) {
+				return false, false
+			}
+			k, ok := constStr(x.Call.Args[1])
+			if !ok {
+				return false, false
+			}
+			var r bool
+			switch cal.Name() {
+			case "Contains":
+				r = strings.Contains(name, k)
+			case "HasPrefix":
+				r = strings.HasPrefix(name, k)
+			case "HasSuffix":
+				r = strings.HasSuffix(name, k)
+			default:
+				return false, false
+			}
+			return r != neg, true
+		}
+		return false, false
+	}
+	return condReachEdges(fn, decide)
+}
